@@ -38,7 +38,7 @@ PATH_FORMS = [("parent", "rel"), ("parent", "dot"), ("parent", "slash"), ("paren
 
 def bounds(tier):
     return {"path_forms": PATH_FORMS, "faults": "every counted write point of every successful run "
-            "(quick: path forms rel / slash; thorough: all forms)", "broken_inputs": ["missing_binary", "missing_level_header", "unknown_field"]}
+            "(quick: path forms rel / slash; thorough: all forms)", "broken_inputs": ["missing_binary", "missing_level_header", "unknown_field", "truncated_binary"]}
 
 
 def mesh3():
@@ -208,6 +208,10 @@ TOOLS = {
 }
 
 
+# tools that never open a binary file / tools that read every box of level 0 whatever their options
+NO_DATA = {"menu_cli", "menu_cli_minmax", "minuterie", "marinate"}
+READS_ALL = {"colander_api", "colander_cli", "combine_api", "combine_cli", "chef_api", "chef_cli", "chef_builtin", "pestle_api", "pestle_cli",
+             "whip_cli", "taste_api", "taste_cli", "chk2plt_api", "chk2plt_cli", "mandoline_api_2d"}
 NO_OUTPUT = set(n for n, t in TOOLS.items() if t[3] == ["none"])
 
 
@@ -339,6 +343,14 @@ def execute(case, env, fail_at=None, breakage=None, opt_index=None):
             lv = lv if kind != "thermo" else "Level_0"
             victim = sorted(f for f in os.listdir(os.path.join(env.p1, lv)) if f.startswith("Cell_D"))[0]
             os.remove(os.path.join(env.p1, lv, victim))
+    if breakage == "truncated_binary":
+        # an interrupted copy: the first binary file of level 0 ends 20 bytes into the data of its first FAB (inside the
+        # FIRST field, so that whatever field a tool reads from that box is incomplete)
+        lvd = os.path.join(env.p1, "Level_0")
+        victim = os.path.join(lvd, sorted(f for f in os.listdir(lvd) if f.startswith("state_D" if kind == "chk" else "Cell_D"))[0])
+        with open(victim, "r+b") as f_:
+            hdr = f_.readline()
+            f_.truncate(len(hdr) + 20)
     if breakage == "missing_level_header":
         os.remove(os.path.join(env.p1, "Level_0", "state_H" if kind == "chk" else "Cell_H"))
     P = path_form(env.p1, cwd, form)
@@ -506,14 +518,16 @@ def run_case(case, workdir):
     judge(rec, case, sub, env, r0, must_fail=False)
     env.remove()
     if case["broken"]:
-        for bk in ("missing_binary", "missing_level_header", "unknown_field"):
+        for bk in ("missing_binary", "missing_level_header", "unknown_field", "truncated_binary"):
             if bk == "unknown_field" and bk not in broken:
+                continue
+            if bk == "truncated_binary" and name in NO_DATA:
                 continue
             env = Env(workdir, kind, seed, bk, case.get("names", 0))
             r = execute(case, env, breakage=bk)
             sub2 = dict(sub, run=bk)
             rec.exe(key + [bk], nontrivial=True)
-            judge(rec, case, sub2, env, r, must_fail=(bk in broken))
+            judge(rec, case, sub2, env, r, must_fail=(bk in broken) or (bk == "truncated_binary" and name in READS_ALL))
             env.remove()
     if case["faults"] and r0["outcome"][0] == "ok" and r0["points"] > 0:
         for k in range(1, r0["points"] + 1):
